@@ -95,7 +95,7 @@ XHTML = 'http://www.w3.org/1999/xhtml'
 XMLNS = 'http://www.w3.org/XML/1998/namespace'
 FOREIGN = 'urn:f'
 PRIMARY = ['de', 'en', 'fr', 'zh', 'x', 'i', 'und', 'sr']
-SUBS = ['de', 'en', 'latn', 'cyrl', 'hant', 'us', 'gb', '1996', '419', 'x', 'a', 'u', '1', 'abc', 'private', 'de']
+SUBS = ['de', 'en', 'latn', 'cyrl', 'hant', 'us', 'gb', '1996', '419', 'x', 'a', 'u', '1', 'abc', 'private', 'de', 'ok', 'o\u212a']     # ok and o + KELVIN SIGN: subtags compare ASCII-case-insensitively, Unicode folding would equate them (two characters: whether a non-ASCII single character is a "singleton" is not defined)
 
 
 def rand_case(rng, s):
